@@ -109,3 +109,28 @@ package jsonclient
 //@ ensures [non-200-error-carries-status-and-body] do.called && do.res1 == nil && cl.called && cl.res == nil && rd.res1 == nil && after(do, do.res0.StatusCode) != 200 ==> typeof(result2) == RspError && as(result2, RspError).StatusCode == after(do, do.res0.StatusCode) && as(result2, RspError).Body == rd.res0
 //@ ensures [undecodable-body-error-carries-status-and-body] dc.called && dc.res != nil ==> typeof(result2) == RspError && as(result2, RspError).StatusCode == after(do, do.res0.StatusCode) && as(result2, RspError).Body == rd.res0
 //@ ensures [error-results-are-nil] result2 != nil ==> result0 == nil && result1 == nil
+
+//@ func New
+//@ props C12 C05 C18
+//@ modifies nothing
+//@ site ParsePublicKey#1 as pk
+//@ site NewSignatureVerifier#1 as nv
+//@ fresh result0
+//@ ensures [client-xor-error] (result0 != nil) != (result1 != nil)
+//@ ensures [unparsable-key-refused] pk.res1 != nil ==> result1 != nil && !nv.called
+//@ ensures [unsuitable-key-refused] nv.called && nv.res1 != nil ==> result1 != nil
+//@ ensures [a-configured-key-always-yields-its-verifier] result1 == nil && pk.res0 != nil ==> nv.called && nv.res1 == nil && result0.Verifier == nv.res0
+//@ ensures [no-key-no-verifier] result1 == nil && pk.res0 == nil ==> result0.Verifier == nil
+//@ ensures [usable-client] result1 == nil ==> result0.httpClient != nil && result0.logger != nil && result0.backoff != nil
+//@ at nv assert [verifier-for-the-parsed-key] nv.pk == pk.res0
+
+//@ func (*Options).ParsePublicKey
+//@ props C12 C05
+//@ pure
+//@ site ParsePKIXPublicKey#1 as der
+//@ site PublicKeyFromPEM#1 as pem
+//@ requires opts != nil
+//@ ensures [caller-view] result1 == nil ==> validKey(result0)
+//@ ensures [der-key-takes-precedence] len(opts.PublicKeyDER) > 0 ==> der.called && result0 == der.res0 && result1 == der.res1 && !pem.called
+//@ ensures [pem-key-must-parse-with-nothing-after-it] len(opts.PublicKeyDER) == 0 && opts.PublicKey != "" ==> pem.called && (pem.res3 != nil || len(pem.res2) > 0 ==> result1 != nil && result0 == nil) && (pem.res3 == nil && len(pem.res2) == 0 ==> result0 == pem.res0 && result1 == nil)
+//@ ensures [no-key-configured] len(opts.PublicKeyDER) == 0 && opts.PublicKey == "" ==> result0 == nil && result1 == nil
